@@ -240,7 +240,7 @@ func TestVerifC15Snapshot(t *testing.T) {
 		fmt.Println("REPLAY-OK")
 		return
 	}
-	depth := 6
+	depth := 7
 	if ev.Thorough() {
 		depth = 7
 	}
